@@ -33,6 +33,7 @@ MANIFEST = {
 U = "8d1c5bdf-5a0e-4b8e-9a3c-1f2e3d4c5b6a"
 T0 = "2016-01-01T00:00:00.000Z"
 F_FRAC7 = "C03-timestamp-more-than-six-fraction-digits"
+F_POS = "C03-positional-argument-falsy-value-dropped"
 
 TS_RE = re.compile(r"^(\d{4})-(\d{2})-(\d{2})T(\d{2}):(\d{2}):(\d{2})(?:\.(\d+))?Z$")
 
@@ -61,6 +62,9 @@ def default_pairs(spec):
                 out.add((s["name"], json.dumps(d["v"], sort_keys=True)))
             elif d["d"] == "fixed":
                 out.add((s["name"], json.dumps(s["kind"]["v"])))
+    # STIX 2.1 indicator: pattern_version defaults to the specification version for STIX patterns
+    # (the class sets it in __init__, not as a property default)
+    out.add(("pattern_version", json.dumps("2.1")))
     return out
 
 
@@ -212,6 +216,48 @@ def container_for(g, cid, o, rng):
                 return None
     members["0"] = x
     return members
+
+
+def refs_well_typed(g, cid, o, container=None):
+    """Object references of STIX 2.0 observables (keys into the enclosing `objects` dictionary) exist and point
+    to an allowed type -- something the table-driven validator does not look at, so candidates are filtered here."""
+    c = g.classes.get(cid)
+    if c is None or not isinstance(o, dict):
+        return True
+    for s in c["slots"]:
+        k, n = s["kind"], s["name"]
+        if n not in o:
+            continue
+        v = o[n]
+        if k["k"] == "observable" and k["ver"] == "2.0":
+            if not isinstance(v, dict):
+                return False
+            for key, m in v.items():
+                mc = g.reg["2.0"]["observables"].get(m.get("type")) if isinstance(m, dict) else None
+                if mc is None or not refs_well_typed(g, mc, m, v):
+                    return False
+        elif k["k"] == "objref" or (k["k"] == "list" and k["of"]["k"] == "objref"):
+            if c["ver"] != "2.0":
+                continue
+            if container is None:
+                return False
+            allowed = (k if k["k"] == "objref" else k["of"]).get("valid_types")
+            for ref in ([v] if k["k"] == "objref" else (v if isinstance(v, list) else [None])):
+                t = container.get(ref) if isinstance(ref, str) else None
+                if not isinstance(t, dict) or (allowed and t.get("type") not in allowed):
+                    return False
+        elif k["k"] == "embedded":
+            if not refs_well_typed(g, k["cls"], v, container):
+                return False
+        elif k["k"] == "listof":
+            if not isinstance(v, list) or not all(refs_well_typed(g, k["cls"], e, container) for e in v):
+                return False
+        elif k["k"] == "extensions" and isinstance(v, dict):
+            for en, e in v.items():
+                ec = g.reg[c["ver"]]["extensions"].get(en)
+                if ec and not refs_well_typed(g, ec, e, container):
+                    return False
+    return True
 
 
 def wrap_cases(g, cid, o, rng):
@@ -392,7 +438,11 @@ def c02_slot(table, cid, name):
 def witness_candidates():
     ident = {"type": "identity", "spec_version": "2.1", "id": "identity--" + U, "created": "2016-01-01T00:00:00.1234567Z",
              "modified": "2016-01-01T00:00:00.1234567Z", "name": "n"}
-    return [("2.1/Identity", ident, "witness:seven-fraction-digits")]
+    rel = {"type": "relationship", "spec_version": "2.1", "id": "relationship--" + U, "created": T0, "modified": T0,
+           "relationship_type": "", "source_ref": "indicator--" + U, "target_ref": "malware--" + U}
+    return [("2.1/Identity", ident, "witness:seven-fraction-digits"),
+            ("2.1/StatementMarking", {"statement": ""}, "witness:empty-statement"),
+            ("2.1/Relationship", rel, "witness:empty-relationship-type")]
 
 
 def classify(loss, cid, obj, how):
@@ -420,6 +470,13 @@ def classify(loss, cid, obj, how):
         return x
     if has7(obj):
         return F_FRAC7, strip7(obj)
+    if loss.startswith("rejected") and isinstance(obj, dict):
+        if obj.get("type") == "relationship" and obj.get("relationship_type") == "":
+            return F_POS, None
+        if cid.endswith("/StatementMarking") and obj.get("statement") == "":
+            return F_POS, None
+        if obj.get("type") == "marking-definition" and isinstance(obj.get("definition"), dict) and obj["definition"].get("statement") == "":
+            return F_POS, None
     return None, None
 
 
@@ -452,7 +509,8 @@ def check(run):
     # which candidates are valid per the frozen specification (kernel-evaluated)
     pats = sc.pattern_lists([{"data": o} for _, o, _, _ in allc])
     verdict = sc.spec_valid_lines([(cid, o) for cid, o, _, _ in allc], pats, tag="c03v")
-    valid = [(cid, o, how, f) for (cid, o, how, f), v in zip(allc, verdict) if v == "true"]
+    valid = [(cid, o, how, f) for (cid, o, how, f), v in zip(allc, verdict)
+             if v == "true" and (g.classes[cid]["ver"] != "2.0" or g.classes[cid]["family"] == "sco" or refs_well_typed(g, cid, o))]
     run.coverage["candidates"] = len(allc)
     run.coverage["spec_valid_candidates"] = len(valid)
     hist = {}
@@ -502,7 +560,7 @@ def check(run):
             continue
         if f:
             explained.add(tuple(f))
-        fid, _ = classify(loss, cid, o, how)
+        fid, _ = classify(loss, cid, dig(c["data"], path), how)
         rep = {"case": {k: c[k] for k in ("op", "cid", "data", "allow", "interop")}, "context": ctx, "path": path,
                "class": cid, "object": dig(c["data"], path), "loss": loss, "origin": how}
         what = "spec-valid %s (%s, %s) %s" % (cid, ctx, how, loss)
